@@ -86,17 +86,17 @@ func (ex *Exec) binop(op token.Token, xt types.Type, x, y Value, yt types.Type) 
 		}
 		switch op {
 		case token.ADD:
-			return c.Wrap(c.Add(a, b), w, signed)
+			return ex.wrap(c.Add(a, b), w, signed)
 		case token.SUB:
-			return c.Wrap(c.Sub(a, b), w, signed)
+			return ex.wrap(c.Sub(a, b), w, signed)
 		case token.MUL:
-			return c.Wrap(c.Mul(a, b), w, signed)
+			return ex.wrap(c.Mul(a, b), w, signed)
 		case token.QUO:
 			ex.mustHold(c.Not(c.Eq(b, c.Int(0))), "integer divide by zero")
-			return c.Wrap(c.TruncDiv(a, b), w, signed)
+			return ex.wrap(ex.truncDiv(a, b), w, signed)
 		case token.REM:
 			ex.mustHold(c.Not(c.Eq(b, c.Int(0))), "integer divide by zero")
-			return c.Wrap(c.TruncRem(a, b), w, signed)
+			return ex.wrap(ex.truncRem(a, b), w, signed)
 		case token.AND:
 			r := c.BitOp("bvand", ex.toUnsigned(a, w, signed), ex.toUnsigned(b, w, signed), w)
 			return c.Wrap(r, w, signed)
@@ -274,7 +274,7 @@ func (ex *Exec) convert(from, to types.Type, v Value) Value {
 		if w, signed, ok := intInfo(ut); ok {
 			switch x := v.(type) {
 			case *Term:
-				return c.Wrap(x, w, signed)
+				return ex.wrap(x, w, signed)
 			case Float:
 				if math.IsNaN(x.v) || math.IsInf(x.v, 0) {
 					return c.Int(0)
